@@ -39,6 +39,15 @@ def main():
             for nm in (f"demo{i}.py", f"equiv{i}.py"):
                 if os.path.exists(os.path.join(d, nm)):
                     shutil.copy(os.path.join(d, nm), os.path.join(dst, "demo.py" if nm.startswith("demo") else "equiv.py"))
+            # one of the counterexample files the check wrote for this change (solver model, native replay), trimmed
+            rdir = os.path.join(VERIF, "replays", f"scratch-se_{prop}_{i}")
+            if os.path.isdir(rdir):
+                reps = sorted(os.listdir(rdir))
+                best = next((r for r in reps if (load(os.path.join(rdir, r)) or {}).get("confirmed")), reps[0] if reps else None)
+                if best:
+                    rec = load(os.path.join(rdir, best)) or {}
+                    rec["solver_output"] = (rec.get("solver_output") or "")[:1500]
+                    json.dump(rec, open(os.path.join(dst, "reported_replay.json"), "w"), indent=1, default=str)
             checks = (ev or {}).get("checks", [])
             caught = [c["property"] for c in checks if c["exit"] == 1]
             out = {
